@@ -148,7 +148,7 @@ class World:
         for name, a in scn['allocs'].items():
             # Exactly as loader.load_allocations does it.
             alloc = self.cell.partitions[a['label']].allocation
-            for part in name.split('/'):
+            for part in name.split('@')[0].split('/'):
                 alloc = alloc.get_sub_alloc(part)
             alloc.update([float(x) for x in a['reserved']], a['rank'], a.get('adj', 0),
                          a.get('maxutil'))
